@@ -265,7 +265,14 @@ class Ctx:
 
     # ---------------------------------------------------------------- verdict + evidence
     def finish(self, *, evaluations: int, distinct_nontrivial: int, rule: str,
-               mc_violations: list | None = None, extra: dict | None = None) -> int:
+               mc_violations: list | None = None, extra: dict | None = None,
+               only_prefixes: tuple | None = None) -> int:
+        """only_prefixes: clause-name prefixes that belong to this property; rejections by clauses of a
+        sibling property (judged by the same trace specification) are counted but not reported here."""
+        if only_prefixes:
+            mine = [r for r in self.rejects if str(r.get("clause", "")).startswith(tuple(only_prefixes))]
+            self.notes["rejections_by_sibling_property_clauses"] = len(self.rejects) - len(mine)
+            self.rejects = mine
         known = load_known_findings(self.prop)
         open_ids = {k["id"]: k for k in known if k.get("status") == "open"}
         kf_seen: dict = {}
